@@ -55,7 +55,7 @@ def main():
         "setup_cmd": f"{PY} /verif/run.py setup",
         "hooks": {
             "guard": "CIRCUITCALCULATOR_VERIF",
-            "enable": "no hook is compiled in: checks put /repo/src first on sys.path and patch the module attribute `open` of CircuitCalculator.dump_load and CircuitCalculator.Network.loaders at run time",
+            "enable": "no hook is compiled into /repo: checks put /repo/src first on sys.path, install a dispatching file-system layer (builtins.open, os.*, fcntl) in their own process before the library is imported, and set the module attribute `id` of library modules at run time",
             "baseline_off_cmd": BASELINE,
             "source_commits": [],
             "add_only": True,
